@@ -251,13 +251,18 @@ def run(ck: Check):
     # deterministic battery: every exporter alone, with a full model and with a dimension-only model
     from sidemantic import Dimension, Metric, Model
     from sidemantic.core.semantic_graph import SemanticGraph
+    # ... and with a WIDE model (hundreds of dimensions, long descriptions): the file is far larger than any read buffer and the
+    # keys a detection branch looks for lie tens of kilobytes apart
     for fmt in sorted(EXPORTERS):
-        for only_dims in (False, True):
+        for only_dims, wide in ((False, False), (True, False), (False, True)):
             root = tempfile.mkdtemp(prefix="c13_", dir=os.environ.get("TMPDIR", "/tmp"))
             try:
                 g = SemanticGraph()
+                wide_dims = [Dimension(name=f"attribute_{i:04d}_of_the_wide_table", type="categorical", sql=f"col_{i:04d}",
+                                       description=f"attribute number {i} " + "x" * 60) for i in range(400)] if wide else []
                 g.add_model(Model(name=f"solo_{fmt.lower()}", table="public.t", primary_key="id",
-                                  dimensions=[Dimension(name="status", type="categorical"), Dimension(name="created", type="time", sql="created_at", granularity="day")],
+                                  description=("wide table; " + "lorem ipsum " * 1500) if wide else None,
+                                  dimensions=[Dimension(name="status", type="categorical"), Dimension(name="created", type="time", sql="created_at", granularity="day")] + wide_dims,
                                   metrics=[] if only_dims else [Metric(name="revenue", agg="sum", sql="amount"), Metric(name="n", agg="count")]))
                 try:
                     a, target, files = export_to(fmt, g, root)
@@ -268,11 +273,14 @@ def run(ck: Check):
                 layer = SemanticLayer(auto_register=False)
                 load_from_directory(layer, root)
                 stats["battery"] += 1
+                if wide:
+                    stats["battery_wide"] += 1
+                    stats["battery_wide_bytes"] += sum(os.path.getsize(f) for f in files)
                 for mname in own.models:
                     got1 = getattr(layer.graph.models.get(mname), "_source_format", None)
                     if got1 != fmt:
-                        ck.fail_input(f"model {mname} exported alone as {fmt} ({'dimension-only' if only_dims else 'with metrics'}) is loaded as {got1} by load_from_directory",
-                                      {"format": fmt, "dimension_only": only_dims, "files": [os.path.relpath(f, root) for f in files]},
+                        ck.fail_input(f"model {mname} exported alone as {fmt} ({'dimension-only' if only_dims else 'with metrics'}{', 400 dimensions' if wide else ''}) is loaded as {got1} by load_from_directory",
+                                      {"format": fmt, "dimension_only": only_dims, "wide": wide, "files": [os.path.relpath(f, root) for f in files]},
                                       finding_key="F24-metricless-model" if (only_dims and fmt in F24_FORMATS and got1 is None) else None)
             finally:
                 shutil.rmtree(root, ignore_errors=True)
